@@ -18,14 +18,14 @@ from mc import core, httpharness as hh
 PROPERTY = 'C15'
 LEVEL = 'model_checking'
 RULE = ('case = body kind {empty str, str, bytes, list, list with None, returned generator (coroutine), streamed generator of str / of '
-        'bytes / with empty items first-middle-last / many chunks, file object, file-like object with short reads, streamed list, non-streamed generator / tuple} x size {0, small with multi-byte '
+        'bytes / with empty items first-middle-last / many chunks, file object, file-like object with short reads, streamed list, non-streamed generator / tuple, str / bytes / list with streaming switched on} x size {0, small with multi-byte '
         'characters, 70 KiB} x status {200, 201, 204, 304, 302 via a returned redirect event, 303 via raise Redirect, 403 via raise Forbidden, 404 via notfound(), 500 via raise} x entry {plain component handling `request`, Controller method behind the Dispatcher} x HTTP/1.0 | 1.1 x Connection {absent, '
-        'keep-alive, close; also written Close, CLOSE, Keep-Alive, KEEP-ALIVE} x {GET, HEAD}; every single case and every sequence of 2 (thorough: 3 from a reduced menu) cases on one '
+        'keep-alive, close; also written Close, CLOSE, Keep-Alive, KEEP-ALIVE and inside a list of options} x {GET, HEAD}; every single case and every sequence of 2 (thorough: 3 from a reduced menu) cases on one '
         'connection; non-trivial = every case; distinct = distinct case sequence')
 ASSUMPTIONS = [
     'http.client.HTTPResponse is the independent decoder; each response is decoded from exactly the bytes written for it',
     'for 404/500 only status, framing and closing are judged (the body is the library\'s own error page)',
-    '204/304 are generated with an empty application body only (a non-empty body with these statuses is an application error)',
+    '204/304 are generated with an empty application body and with a body the application left there (it is not sent)',
     'a 1.0 client without keep-alive and any client sending Connection: close must see the connection closed after the response',
 ]
 
@@ -48,7 +48,7 @@ def chunks(text, n):
 
 
 KINDS = ['str', 'bytes', 'list', 'listnone', 'coroutine', 'gen_str', 'gen_bytes', 'gen_empty_first', 'gen_empty_mid', 'gen_empty_last',
-         'gen_many', 'file', 'shortread_file', 'stream_list', 'gen_nostream', 'tuple']
+         'gen_many', 'file', 'shortread_file', 'stream_list', 'gen_nostream', 'tuple', 'stream_str', 'stream_bytes', 'stream_plainlist']
 
 
 def make_body(kind, size, res):
@@ -80,6 +80,13 @@ def make_body(kind, size, res):
         res.stream = True
         res.body = iter(items) if kind == 'stream_list' else (x for x in items)
         return res, data
+    if kind in ('stream_str', 'stream_bytes', 'stream_plainlist'):
+        # streaming switched on, but the body is no iterator: a str / bytes / list as for any other response
+        res.stream = True
+        if kind == 'stream_plainlist':
+            res.body = chunks(text, 3)
+            return res, data
+        return (text if kind == 'stream_str' else data), data
     if kind in ('gen_nostream', 'tuple'):
         # an iterable body of unknown length that is NOT streamed: joined and sent at once (chunked for 1.1, until-close for 1.0)
         items = chunks(text, 3)
@@ -272,7 +279,8 @@ def judge(seq, out, expect):
             bad.append(('close-missing:' + cls, 'response announces close (or is not self-delimiting) but no close event followed [%s]' % tag))
         if not r.will_close and closed:
             bad.append(('close-unannounced:' + cls, 'connection closed although the response keeps it alive [%s]' % tag))
-        must_close = (conn or '').lower() == 'close' or (version == '1.0' and (conn or '').lower() != 'keep-alive')
+        options = {x.strip().lower() for x in (conn or '').split(',')}       # Connection is a list of options (RFC 7230 6.1)
+        must_close = 'close' in options or (version == '1.0' and 'keep-alive' not in options)
         if must_close and not closed:
             bad.append(('client-close-wish-ignored:' + cls, 'the client asked for / implies close but the connection stays open [%s]' % tag))
         seen_close = False
@@ -299,11 +307,13 @@ def single_cases(tier):
                                 continue    # a handler that produces no value at all means "not handled" (404) by design
                             yield (kind, size, status, version, conn, method)
     for status in (204, 304):
-        for kind in ('str', 'gen_str', 'file'):
-            for version in ('1.0', '1.1'):
-                for conn in (None, 'keep-alive', 'close'):
-                    for method in ('GET', 'HEAD'):
-                        yield (kind, 'zero', status, version, conn, method)
+        for kind in ('str', 'gen_str', 'file', 'list'):
+            # 'small': the application left a body there - these statuses are sent without one all the same
+            for size in ('zero', 'small'):
+                for version in ('1.0', '1.1'):
+                    for conn in (None, 'keep-alive', 'close'):
+                        for method in ('GET', 'HEAD'):
+                            yield (kind, size, status, version, conn, method)
     for status in (404, 500, 302, 303, 403):
         for version in ('1.0', '1.1'):
             for conn in (None, 'keep-alive', 'close'):
@@ -311,7 +321,8 @@ def single_cases(tier):
                     yield ('str', 'small', status, version, conn, method)
 
 
-MIXED_CASE = ('Close', 'CLOSE', 'Keep-Alive', 'KEEP-ALIVE')     # connection options are case-insensitive (RFC 7230 6.1)
+# connection options are case-insensitive, and the header is a comma-separated list of them (RFC 7230 6.1)
+MIXED_CASE = ('Close', 'CLOSE', 'Keep-Alive', 'KEEP-ALIVE', 'TE, close', 'close, TE', 'keep-alive, TE', 'TE,Keep-Alive')
 
 
 def sequences(tier):
@@ -324,7 +335,7 @@ def sequences(tier):
             for conn in MIXED_CASE:
                 for method in ('GET', 'HEAD'):
                     yield ((kind, 'small', 200, version, conn, method),)
-                if conn.lower() == 'keep-alive':
+                if 'keep-alive' in conn.lower():
                     for conn2 in (None, 'close', 'Close'):
                         yield ((kind, 'small', 200, version, conn, 'GET'), ('str', 'small', 200, '1.1', conn2, 'GET'))
     # sequences: first request keeps the connection alive
@@ -332,7 +343,7 @@ def sequences(tier):
     seconds = [c for c in singles if c[1] == 'small' and c[2] in (200, 404) and c[0] in ('str', 'gen_str', 'file', 'coroutine') and c[5] == 'GET'
                and c[4] in (None, 'close')]
     if tier == 'quick':
-        firsts = [c for c in firsts if c[1] == 'small' or c[0] in ('gen_empty_first', 'str', 'file')]
+        firsts = [c for c in firsts if c[1] == 'small' or c[0] in ('gen_empty_first', 'str', 'file', 'stream_str')]
         seconds = [c for c in seconds if c[3] == '1.1']
     for a in firsts:
         for b in seconds:
